@@ -143,7 +143,10 @@ def run_config(cfg):
                        prior_bounds={p: [float(l), float(h)] for p, l, h in reversed(list(zip(params, LO[:d], HI[:d])))} if bounded != "off" else None,
                        bounded_to_unbounded=bounded != "off", bounded_transform=bounded if bounded != "off" else "logit",
                        flow_backend=backend, dtype=dt, xp=get_xp("numpy"), **({"seed": seed, "hidden_features": [16, 16], "transforms": 2} if backend == "zuko" else {}))
-            a.fit(Samples(x=x, parameters=params, xp=get_xp("numpy")), n_epochs=2, batch_size=64)
+            if backend == "zuko":
+                a.fit(Samples(x=x, parameters=params, xp=get_xp("numpy")), n_epochs=2, batch_size=64)
+            else:
+                a.fit(Samples(x=x, parameters=params, xp=get_xp("numpy")), max_epochs=2, batch_size=64, show_progress=False)
             flow = a.flow
         else:
             flow, F = build_flow(backend, bounded, affine, dt, d, seed)
@@ -196,6 +199,11 @@ def run_config(cfg):
     else:
         cond = np.ones(len(xs_np))
     tol = 64 * eps * (1 + np.abs(lp_np)) * (1 + cond) + (2e-4 if f32 else 1e-9)
+    # a narrow training set makes the density steep: d(log q)/dx ~ |z|/std, and x itself is only known to one ulp
+    sd = xs_np.std(0) + 1e-300
+    zz = np.abs(xs_np - xs_np.mean(0)) / sd
+    ulp_x = np.spacing(np.abs(xs_np).astype(np.float32 if f32 else np.float64)).astype(np.float64)
+    tol = tol + 8 * (ulp_x * (1 + zz) / sd).sum(1)
     bad = inside & ~(np.abs(lq_np - lp_np) <= tol)
     r.count("rows_compared", int(inside.sum()))
     r.count("rows_in_clipping_margin", int((~inside).sum()))
